@@ -60,7 +60,7 @@ pub fn check_scenario(s: &Scenario, src: &mut Src, rebuilds: usize) -> Verdict {
 /// removed or added; gauges set again) and gathered again, 1-3 times: every gather shows exactly the state of its moment.
 pub fn check_epochs(s: &Scenario, src: &mut Src, rep: &mut Report) -> Verdict {
     let ident: Vec<usize> = (0..s.colls.len()).collect();
-    let (reg, handles) = match crate::scenario::build_h(s, &ident) {
+    let (reg, mut handles) = match crate::scenario::build_h(s, &ident) {
         Ok(x) => x,
         Err(e) => return fail("valid-scenario-rejected", format!("{} ;; {}", e, describe(s))),
     };
@@ -70,7 +70,10 @@ pub fn check_epochs(s: &Scenario, src: &mut Src, rep: &mut Report) -> Verdict {
     let mut cur = s.clone();
     let mut changes: Vec<String> = vec![];
     for epoch in 0..1 + src.below(3) {
-        let (next, log) = crate::scenario::mutate(src, &cur, &handles);
+        let (next, log) = crate::scenario::mutate(src, &cur, &mut handles, &reg);
+        if let Some(bad) = log.iter().find(|l| l.contains("FAILED")) {
+            return fail("valid-registry-operation-refused", format!("{} ;; {}", bad, describe(&cur)));
+        }
         changes.extend(log.iter().map(|l| format!("epoch {}: {}", epoch + 1, l)));
         cur = next;
         if let Err(v) = check_against(&neutral_all(&reg.gather()), &expected(&cur), &cur) {
@@ -146,7 +149,7 @@ impl Property for C07 {
          two prefixes and 0-4 common labels; 5 further rebuilds in fresh registries under generated registration permutations (each \
          HashMap gets a fresh RandomState). Oracle: model of the prescribed result (names strictly increasing, every sample exactly \
          once, lexicographic by label values, help, type, prefix, common labels) + all rebuilds and their text encodings identical; a third of the cases then change the gathered registry through second handles (vectors reset and refilled with the same tuples, \
-         emptied, one child removed or added; gauges set again) 1-3 times and compare every further gather with the model of its moment. \
+         emptied, one child removed or added; gauges set again; a collector unregistered, or unregistered and registered again) 1-3 times and compare every further gather with the model of its moment. \
          Non-trivial: >=2 collectors share a name, or a vector has >=3 children, or >=2 common labels. Distinct = decoded choices."
     }
     fn assumptions(&self) -> Vec<&'static str> {
